@@ -1,14 +1,679 @@
-// Package c11 is the correspondence area of property C11 (stub: the slice is not built yet).
+// Package c11 is the correspondence area of property C11: it runs the REAL PatternRouter /
+// ServiceRouter with one goroutine per scripted thread under a deterministic scheduler that releases
+// exactly one goroutine at a time. Goroutines park at the verif yield points (internal/verifhook) and
+// between operations; a goroutine that does not reach its next park point because it waits for a
+// mutex is recognised from the runtime's goroutine dump (wait reason sync.Mutex.Lock), not by a
+// timeout, so a run is a deterministic function of the input line. The totally ordered event log is
+// judged by the Lean driver (GB.C11.handle): specification predicates + replay through the LTS.
+//
+// input : <P|S> <threads> <schedule>
+//
+//	threads  = thread;thread;…      thread = op,op,…
+//	op       = W<name>.<slot> | U<slot>.<name>.<ver>.<svcs> | C<slot> | L<svc>     (svcs: digits or "-")
+//	schedule = digits (thread to release next; skipped when that thread is blocked or finished);
+//	           afterwards the remaining threads are drained lowest index first.
+//
+// output: event tokens, see lean/GB/C11/Driver.lean.
 package c11
 
 import (
+	"bytes"
+	"context"
+	"fmt"
 	"math/rand"
+	"net/http"
+	"net/url"
+	"runtime"
+	"strconv"
+	"strings"
+	"sync"
+	"sync/atomic"
+	"time"
+
+	"github.com/renbou/grpcbridge/bridgedesc"
+	"github.com/renbou/grpcbridge/grpcadapter"
+	"github.com/renbou/grpcbridge/routing"
+	"github.com/renbou/grpcbridge/verifx"
+	"google.golang.org/grpc"
+	"google.golang.org/grpc/metadata"
+	"google.golang.org/protobuf/reflect/protoreflect"
 )
 
 type Area struct{}
 
 func (Area) Name() string { return "c11" }
 
-func (Area) Exec(input string) string { return "UNIMPLEMENTED" }
+type pool struct{}
 
-func (Area) Gen(r *rand.Rand, tier string, emit func(string)) {}
+func (pool) Get(string) (grpcadapter.ClientConn, bool) { return nil, true }
+
+type fakeSTS struct{ m string }
+
+func (s *fakeSTS) Method() string             { return s.m }
+func (*fakeSTS) SetHeader(metadata.MD) error  { return nil }
+func (*fakeSTS) SendHeader(metadata.MD) error { return nil }
+func (*fakeSTS) SetTrailer(metadata.MD) error { return nil }
+
+type watcher interface {
+	UpdateDesc(*bridgedesc.Target)
+	Close()
+}
+
+type op struct {
+	kind       byte
+	slot, name int
+	ver        int
+	svcs       []int
+	key        int
+}
+
+const (
+	stParked int32 = iota
+	stRunning
+	stDone
+)
+
+type worker struct {
+	id     int
+	ops    []op
+	gate   chan struct{}
+	status atomic.Int32
+	gid    uint64
+}
+
+type slotState struct {
+	w           watcher
+	wid         int
+	closeCalled bool
+}
+
+type run struct {
+	svc     bool
+	pr      *routing.PatternRouter
+	sr      *routing.ServiceRouter
+	workers []*worker
+	byGid   sync.Map
+
+	mu      sync.Mutex // protects log, slots and the pointer maps (woken goroutines run concurrently)
+	log     []string
+	slots   [10]*slotState
+	nextWid int
+	tgtVer  map[*bridgedesc.Target]int
+	svcVer  map[*bridgedesc.Service]int
+	mthVer  map[*bridgedesc.Method]int
+}
+
+func (r *run) post(tok string) {
+	r.mu.Lock()
+	r.log = append(r.log, tok)
+	r.mu.Unlock()
+}
+
+func curGid() uint64 {
+	var buf [64]byte
+	n := runtime.Stack(buf[:], false)
+	f := bytes.Fields(buf[:n])
+	g, _ := strconv.ParseUint(string(f[1]), 10, 64)
+	return g
+}
+
+var hookNo = map[string]int{
+	"pattern.update.afterCheck": 0, "service.update.afterCheck": 0,
+	"pattern.close.afterFlag": 1, "service.close.afterFlag": 1,
+	"service.update.betweenPhases": 2,
+	"pattern.route.afterLoad":      3,
+}
+
+func (r *run) hook(name string, args ...string) {
+	n, ok := hookNo[name]
+	if !ok {
+		return
+	}
+	v, ok := r.byGid.Load(curGid())
+	if !ok {
+		return
+	}
+	w := v.(*worker)
+	r.post(fmt.Sprintf("h.%d.%d", w.id, n))
+	w.status.Store(stParked)
+	<-w.gate
+}
+
+func svcsStr(s []int) string {
+	if len(s) == 0 {
+		return "-"
+	}
+	var sb strings.Builder
+	for _, k := range s {
+		sb.WriteByte(byte('0' + k))
+	}
+	return sb.String()
+}
+
+func (r *run) mkDesc(o op) *bridgedesc.Target {
+	d := &bridgedesc.Target{Name: fmt.Sprintf("t%d", o.name)}
+	d.Services = make([]bridgedesc.Service, len(o.svcs))
+	for i, k := range o.svcs {
+		d.Services[i] = bridgedesc.Service{
+			Name:    protoName(k),
+			Methods: []bridgedesc.Method{{RPCName: fmt.Sprintf("/pkg.S%d/M", k)}},
+		}
+	}
+	r.mu.Lock()
+	r.tgtVer[d] = o.ver
+	for i := range d.Services {
+		r.svcVer[&d.Services[i]] = o.ver
+		r.mthVer[&d.Services[i].Methods[0]] = o.ver
+	}
+	r.mu.Unlock()
+	return d
+}
+
+// doOp executes one operation of worker w on the real router and returns its end token.
+func (r *run) doOp(w *worker, o op) string {
+	t := w.id
+	switch o.kind {
+	case 'W':
+		r.post(fmt.Sprintf("s.%d.W.%d", t, o.name))
+		var nw watcher
+		var err error
+		if r.svc {
+			nw, err = r.sr.Watch(fmt.Sprintf("t%d", o.name))
+		} else {
+			nw, err = r.pr.Watch(fmt.Sprintf("t%d", o.name))
+		}
+		if err != nil {
+			return fmt.Sprintf("e.%d.wf", t)
+		}
+		r.mu.Lock()
+		wid := r.nextWid
+		r.nextWid++
+		r.slots[o.slot] = &slotState{w: nw, wid: wid}
+		r.mu.Unlock()
+		return fmt.Sprintf("e.%d.w.%d", t, wid)
+	case 'U':
+		r.mu.Lock()
+		sl := r.slots[o.slot]
+		r.mu.Unlock()
+		if sl == nil {
+			r.post(fmt.Sprintf("s.%d.X", t))
+			return ""
+		}
+		d := r.mkDesc(o)
+		r.post(fmt.Sprintf("s.%d.U.%d.%d.%d.%s", t, sl.wid, o.name, o.ver, svcsStr(o.svcs)))
+		sl.w.UpdateDesc(d)
+		return fmt.Sprintf("e.%d.ok", t)
+	case 'C':
+		r.mu.Lock()
+		sl := r.slots[o.slot]
+		skip := sl == nil || sl.closeCalled
+		if !skip {
+			sl.closeCalled = true // Close twice is a documented panic, not part of the property
+		}
+		r.mu.Unlock()
+		if skip {
+			r.post(fmt.Sprintf("s.%d.X", t))
+			return ""
+		}
+		r.post(fmt.Sprintf("s.%d.C.%d", t, sl.wid))
+		sl.w.Close()
+		return fmt.Sprintf("e.%d.ok", t)
+	case 'L':
+		r.post(fmt.Sprintf("s.%d.L.%d", t, o.key))
+		var tgt *bridgedesc.Target
+		var svc *bridgedesc.Service
+		var mth *bridgedesc.Method
+		if r.svc {
+			ctx := grpc.NewContextWithServerTransportStream(context.Background(), &fakeSTS{fmt.Sprintf("/pkg.S%d/M", o.key)})
+			_, route, err := r.sr.RouteGRPC(ctx)
+			if err != nil {
+				return fmt.Sprintf("e.%d.m", t)
+			}
+			tgt, svc = route.Target, route.Service
+		} else {
+			_, route, err := r.pr.RouteHTTP(&http.Request{Method: http.MethodPost, URL: &url.URL{Path: fmt.Sprintf("/pkg.S%d/M", o.key)}})
+			if err != nil {
+				return fmt.Sprintf("e.%d.m", t)
+			}
+			tgt, svc, mth = route.Target, route.Service, route.Method
+		}
+		r.mu.Lock()
+		tv, ok1 := r.tgtVer[tgt]
+		sv, ok2 := r.svcVer[svc]
+		mv, ok3 := sv, true
+		if mth != nil {
+			mv, ok3 = r.mthVer[mth]
+		}
+		r.mu.Unlock()
+		if !ok1 {
+			tv = 9999
+		}
+		if !ok2 {
+			sv = 9998
+		}
+		if !ok3 {
+			mv = 9997
+		}
+		// the routed service must also be the one that was asked for
+		if svc != nil && string(svc.Name) != string(protoName(o.key)) {
+			sv = 9996
+		}
+		return fmt.Sprintf("e.%d.h.%d.%d.%d", t, tv, sv, mv)
+	}
+	return fmt.Sprintf("e.%d.panic", t)
+}
+
+func (r *run) work(w *worker, ready *sync.WaitGroup) {
+	w.gid = curGid()
+	r.byGid.Store(w.gid, w)
+	ready.Done()
+	<-w.gate
+	for i, o := range w.ops {
+		end := func() (tok string) {
+			defer func() {
+				if p := recover(); p != nil {
+					tok = fmt.Sprintf("e.%d.panic", w.id)
+				}
+			}()
+			return r.doOp(w, o)
+		}()
+		if end != "" {
+			r.post(end)
+		}
+		if i == len(w.ops)-1 {
+			break
+		}
+		w.status.Store(stParked)
+		<-w.gate
+	}
+	w.status.Store(stDone)
+}
+
+// runningSet returns the workers currently marked running.
+func (r *run) runningSet() []*worker {
+	var ws []*worker
+	for _, w := range r.workers {
+		if w.status.Load() == stRunning {
+			ws = append(ws, w)
+		}
+	}
+	return ws
+}
+
+// allBlocked reports whether every worker of ws (read BEFORE the dump is taken, so that a worker that
+// finishes in between cannot be skipped) is shown by the runtime as waiting for a sync.Mutex.
+// Only the wait reason sync.Mutex.Lock counts: "semacquire" also covers transient runtime-internal
+// waits (GC start, stop-the-world) and must not be mistaken for a router mutex.
+func (r *run) allBlocked(ws []*worker, buf []byte) bool {
+	n := runtime.Stack(buf, true)
+	dump := buf[:n]
+	for _, w := range ws {
+		hdr := []byte(fmt.Sprintf("\ngoroutine %d [", w.gid))
+		i := bytes.Index(dump, hdr)
+		if i < 0 {
+			if bytes.HasPrefix(dump, hdr[1:]) {
+				rest := dump[len(hdr)-1:]
+				e := bytes.IndexByte(rest, ']')
+				if e < 0 || !strings.HasPrefix(string(rest[:e]), "sync.Mutex.Lock") {
+					return false
+				}
+				continue
+			}
+			return false
+		}
+		rest := dump[i+len(hdr):]
+		e := bytes.IndexByte(rest, ']')
+		if e < 0 {
+			return false
+		}
+		if !strings.HasPrefix(string(rest[:e]), "sync.Mutex.Lock") {
+			return false
+		}
+	}
+	return true
+}
+
+func sameSet(a, b []*worker) bool {
+	if len(a) != len(b) {
+		return false
+	}
+	for i := range a {
+		if a[i] != b[i] {
+			return false
+		}
+	}
+	return true
+}
+
+func (r *run) anyRunning() bool {
+	for _, w := range r.workers {
+		if w.status.Load() == stRunning {
+			return true
+		}
+	}
+	return false
+}
+
+// settle waits until no worker is making progress: each is parked, finished, or waits for a mutex.
+func (r *run) settle(buf []byte) bool {
+	deadline := time.Now().Add(3 * time.Second)
+	for spin := 0; ; spin++ {
+		if !r.anyRunning() {
+			return true
+		}
+		if spin < 200 {
+			runtime.Gosched()
+			continue
+		}
+		// two consecutive consistent observations: same running set, all of it waiting for a mutex
+		ws := r.runningSet()
+		if r.allBlocked(ws, buf) {
+			time.Sleep(30 * time.Microsecond)
+			ws2 := r.runningSet()
+			if sameSet(ws, ws2) && r.allBlocked(ws2, buf) && sameSet(ws2, r.runningSet()) {
+				return true
+			}
+		}
+		if time.Now().After(deadline) {
+			return false
+		}
+		time.Sleep(20 * time.Microsecond)
+	}
+}
+
+func parseOps(s string) ([]op, error) {
+	var ops []op
+	for _, f := range strings.Split(s, ",") {
+		if f == "" {
+			continue
+		}
+		p := strings.Split(f[1:], ".")
+		atoi := func(i int) int { n, _ := strconv.Atoi(p[i]); return n }
+		switch f[0] {
+		case 'W':
+			if len(p) != 2 {
+				return nil, fmt.Errorf("bad op %q", f)
+			}
+			ops = append(ops, op{kind: 'W', name: atoi(0), slot: atoi(1) % 10})
+		case 'U':
+			if len(p) != 4 {
+				return nil, fmt.Errorf("bad op %q", f)
+			}
+			o := op{kind: 'U', slot: atoi(0) % 10, name: atoi(1), ver: atoi(2)}
+			if p[3] != "-" {
+				for _, c := range p[3] {
+					o.svcs = append(o.svcs, int(c-'0'))
+				}
+			}
+			ops = append(ops, o)
+		case 'C':
+			ops = append(ops, op{kind: 'C', slot: atoi(0) % 10})
+		case 'L':
+			ops = append(ops, op{kind: 'L', key: atoi(0)})
+		default:
+			return nil, fmt.Errorf("bad op %q", f)
+		}
+	}
+	return ops, nil
+}
+
+var execMu sync.Mutex // the hook handler is process-global
+
+func (Area) Exec(input string) string {
+	f := strings.Fields(input)
+	if len(f) < 2 || (f[0] != "P" && f[0] != "S") {
+		return "BADINPUT"
+	}
+	sched := ""
+	if len(f) > 2 {
+		sched = f[2]
+	}
+	execMu.Lock()
+	defer execMu.Unlock()
+
+	r := &run{svc: f[0] == "S", tgtVer: map[*bridgedesc.Target]int{}, svcVer: map[*bridgedesc.Service]int{}, mthVer: map[*bridgedesc.Method]int{}}
+	if r.svc {
+		r.sr = routing.NewServiceRouter(pool{}, routing.ServiceRouterOpts{})
+	} else {
+		r.pr = routing.NewPatternRouter(pool{}, routing.PatternRouterOpts{})
+	}
+	for i, ts := range strings.Split(f[1], ";") {
+		ops, err := parseOps(ts)
+		if err != nil {
+			return "BADINPUT"
+		}
+		r.workers = append(r.workers, &worker{id: i, ops: ops, gate: make(chan struct{})})
+	}
+	var ready sync.WaitGroup
+	for _, w := range r.workers {
+		if len(w.ops) == 0 {
+			w.status.Store(stDone)
+			continue
+		}
+		ready.Add(1)
+		go r.work(w, &ready)
+	}
+	ready.Wait()
+	verifx.SetHook(r.hook)
+	defer verifx.SetHook(nil)
+
+	buf := make([]byte, 1<<16)
+	release := func(w *worker) bool {
+		r.post(fmt.Sprintf("r.%d", w.id))
+		before := len(r.log)
+		w.status.Store(stRunning)
+		w.gate <- struct{}{}
+		if !r.settle(buf) {
+			r.post("stuck")
+			return false
+		}
+		if w.status.Load() == stRunning {
+			// did not reach a park point: it waits for a mutex (unless it already logged an event, which cannot happen)
+			r.mu.Lock()
+			own := false
+			for _, tok := range r.log[before:] {
+				if strings.HasPrefix(tok, fmt.Sprintf("h.%d.", w.id)) || strings.HasPrefix(tok, fmt.Sprintf("e.%d.", w.id)) {
+					own = true
+				}
+			}
+			r.mu.Unlock()
+			if !own {
+				r.post(fmt.Sprintf("b.%d", w.id))
+			}
+		}
+		return true
+	}
+	ok := true
+	for _, c := range sched {
+		if c < '0' || c > '9' {
+			continue
+		}
+		w := r.workers[int(c-'0')%len(r.workers)]
+		if w.status.Load() != stParked {
+			continue
+		}
+		if ok = release(w); !ok {
+			break
+		}
+	}
+	for ok {
+		var next *worker
+		for _, w := range r.workers {
+			if w.status.Load() == stParked {
+				next = w
+				break
+			}
+		}
+		if next == nil {
+			break
+		}
+		ok = release(next)
+	}
+	for _, w := range r.workers {
+		if w.status.Load() != stDone && ok {
+			r.post("deadlock")
+			break
+		}
+	}
+	r.mu.Lock()
+	defer r.mu.Unlock()
+	return strings.Join(r.log, " ")
+}
+
+func protoName(k int) protoreflect.FullName { return protoreflect.FullName(fmt.Sprintf("pkg.S%d", k)) }
+
+// ---------------------------------------------------------------------------------------------
+
+var stats = struct {
+	sync.Mutex
+	kinds map[string]int
+}{kinds: map[string]int{}}
+
+func (Area) Extra() map[string]any {
+	stats.Lock()
+	defer stats.Unlock()
+	m := map[string]any{}
+	for k, v := range stats.kinds {
+		m[k] = v
+	}
+	return m
+}
+
+func count(k string) {
+	stats.Lock()
+	stats.kinds[k]++
+	stats.Unlock()
+}
+
+// enumerate every schedule of the given length over the thread indices in `over`, after a fixed prefix.
+func enumSchedules(prefix string, over string, n int, f func(string)) {
+	var rec func(cur []byte)
+	rec = func(cur []byte) {
+		if len(cur) == n {
+			f(prefix + string(cur))
+			return
+		}
+		for i := 0; i < len(over); i++ {
+			rec(append(cur, over[i]))
+		}
+	}
+	rec(nil)
+}
+
+func (Area) Gen(r *rand.Rand, tier string, emit func(string)) {
+	thorough := tier == "thorough"
+	for _, k := range []string{"P", "S"} {
+		// the D11 schedule: update passes the closed check and parks, Close runs, update resumes, lookup, re-watch
+		emit(k + " W0.0;U0.0.1.12;C0;L1,W0.1,L1 0122133333")
+		emit(k + " W0.0;U0.0.1.12;C0;L1,W0.1,L1 01221213333")
+		// straggler after close returned; re-watch; the new watcher's routes must survive the old straggler
+		emit(k + " W0.0,U0.0.1.12,C0,W0.1,U1.0.3.13;U0.0.2.14;L1,L3,L4 00000001102222")
+		emit(k + " W0.0,U0.0.1.12;C0,W0.1,U1.0.3.13;U0.0.2.14;L1,L3,L4 000211112211222")
+		// lookup parked between snapshot load and iteration while the table changes
+		emit(k + " W0.0,U0.0.1.12;L1,L2;U0.0.2.13,C0 00011222221111")
+		// no gap: service present in old and new description, looked up in the middle of the update
+		emit(k + " W0.0,U0.0.1.12;U0.0.2.13;L1,L1,L1,L2,L3 0001212122222")
+		emit(k + " W0.0,U0.0.1.12;U0.0.2.13;L1,L1,L1,L2,L3 00012112122222")
+		// two targets sharing a service
+		emit(k + " W0.0,U0.0.1.12,W1.1,U1.1.2.23;L2,L2,L2;C0;U1.1.3.2 000000112213311")
+		emit(k + " W0.0,W1.1;U0.0.1.12;U1.1.2.12;L1,L2,C0,L1,L2,C1,L1 000121211111111")
+		// wrong name, empty description, double watch
+		emit(k + " W0.0,U0.1.1.12,U0.0.2.-,U0.0.3.1,U0.0.4.-,W0.1;L1,L1,L1,L1 00010010010010011")
+	}
+	// small-scope exhaustive schedule enumeration (validation of model against code / search after a break):
+	// after the set-up thread 4 (watch + first description) every schedule prefix of length n over
+	// {update to a new description, close, lookup x2, re-watch + update + lookup}
+	n := 6
+	if thorough {
+		n = 7
+	}
+	for _, k := range []string{"P", "S"} {
+		sc := k + " U0.0.2.13;C0;L1,L3;W0.1,U1.0.3.1,L1;W0.0,U0.0.1.12"
+		enumSchedules("444", "0123", n, func(s string) { count("exhaustive"); emit(sc + " " + s) })
+	}
+	// seeded random scenarios
+	N := 1500
+	if thorough {
+		N = 40000
+	}
+	for i := 0; i < N; i++ {
+		emit(randomScenario(r))
+		count("random")
+	}
+}
+
+func randomScenario(r *rand.Rand) string {
+	kind := "P"
+	if r.Intn(2) == 0 {
+		kind = "S"
+	}
+	nth := 2 + r.Intn(4)
+	ver := 0
+	randSvcs := func() string {
+		var sb strings.Builder
+		for k := 1; k <= 4; k++ {
+			if r.Intn(2) == 0 {
+				sb.WriteByte(byte('0' + k))
+			}
+		}
+		if sb.Len() == 0 {
+			if r.Intn(3) == 0 {
+				return "-"
+			}
+			return strconv.Itoa(1 + r.Intn(4))
+		}
+		return sb.String()
+	}
+	twoNames := r.Intn(3) == 0
+	var threads []string
+	for t := 0; t < nth; t++ {
+		var ops []string
+		nops := 1 + r.Intn(3)
+		if t == 0 {
+			ops = append(ops, "W0.0")
+			if twoNames {
+				ops = append(ops, "W1.1")
+			}
+			if r.Intn(3) != 0 {
+				ver++
+				ops = append(ops, fmt.Sprintf("U0.0.%d.%s", ver, randSvcs()))
+			}
+		}
+		for i := 0; i < nops; i++ {
+			slot := 0
+			name := 0
+			if twoNames && r.Intn(2) == 0 {
+				slot, name = 1, 1
+			}
+			switch x := r.Intn(10); {
+			case x < 4:
+				ver++
+				nm := name
+				if r.Intn(12) == 0 {
+					nm = 1 - name // wrong-name update
+				}
+				if r.Intn(6) == 0 {
+					slot = 2 // the re-watch slot
+					nm = 0
+				}
+				ops = append(ops, fmt.Sprintf("U%d.%d.%d.%s", slot, nm, ver, randSvcs()))
+			case x < 6:
+				ops = append(ops, fmt.Sprintf("C%d", slot))
+			case x < 9:
+				ops = append(ops, fmt.Sprintf("L%d", 1+r.Intn(4)))
+			default:
+				ops = append(ops, fmt.Sprintf("W%d.%d", name, 2*(1-name)+name)) // re-watch name 0 into slot 2, name 1 into slot 1
+			}
+		}
+		threads = append(threads, strings.Join(ops, ","))
+	}
+	var sb strings.Builder
+	// let the set-up thread run first most of the time
+	for i := r.Intn(4); i > 0; i-- {
+		sb.WriteByte('0')
+	}
+	for i := 4 + r.Intn(20); i > 0; i-- {
+		sb.WriteByte(byte('0' + r.Intn(nth)))
+	}
+	return kind + " " + strings.Join(threads, ";") + " " + sb.String()
+}
